@@ -7,6 +7,8 @@ CONSTANTS
   MaxGetter = 3
   MaxPath = 2
   MaxHist = 2
+  MaxSeq = 3
+INVARIANT GetterHistory
 INVARIANT HistoryIndependent
 INVARIANT Precedence
 INVARIANT FilesInOrder
